@@ -17,6 +17,7 @@ REPO = "/repo"
 
 # counters that are oracle evaluations, per property
 EVALS = {
+    "C02": ["C02.xref_checks_at_optimize", "C02.xref_checks_after_edit"],
     "C01": ["C01.core_checks_at_optimize"],
     "C03": ["C03.outermost_exits_checked"],
     "C04": ["C04.optimize_judged", "C04.slim_judged"],
@@ -27,6 +28,7 @@ EVALS = {
 }
 
 QUICK_PATHS = {
+    "C02": ["tests/test_core", "tests/test_manipulation", "tests/test_medium", "tests/test_flux_analysis/test_gapfilling.py"],
     "C01": ["tests/test_core/test_model.py", "tests/test_core/test_core_reaction.py", "tests/test_util", "tests/test_manipulation", "tests/test_medium"],
     "C03": ["tests/test_core", "tests/test_util", "tests/test_manipulation", "tests/test_medium"],
     "C04": ["tests/test_core/test_model.py", "tests/test_core/test_solution.py", "tests/test_flux_analysis/test_parsimonious.py", "tests/test_flux_analysis/test_deletion.py", "tests/test_medium"],
